@@ -19,9 +19,12 @@ pub type F128x1 = Bvf<u128, 1>;
 pub type F128x2 = Bvf<u128, 2>;
 pub type Fszx1 = Bvf<usize, 1>;
 pub type Fszx2 = Bvf<usize, 2>;
-/// A fixed type far larger than every alias of the crate (1280 bits, 40 words): size-threshold
-/// dependent behaviour (stack buffers, chunked loops) only shows on something this big.
-pub type F32x40 = Bvf<u32, 40>;
+/// A fixed type far larger than every alias of the crate (2560 bits, 80 words): size-threshold
+/// dependent behaviour (128/256-byte stack buffers, chunked loops) only shows on something this big.
+pub type F32x80 = Bvf<u32, 80>;
+/// 20 bytes: capacity above the inline `Bv` limit with a byte size that is a multiple of neither
+/// 8 nor 16 and N % 4 == 2 (re-chunking into wider words leaves more than one word over).
+pub type F16x10 = Bvf<u16, 10>;
 
 /// One value of any zoo type.
 #[derive(Clone, Debug)]
@@ -44,27 +47,28 @@ pub enum Z {
     Fszx2(Fszx2),
     D(Bvd),
     A(Bv),
-    F32x40(F32x40),
+    F32x80(F32x80),
+    F16x10(F16x10),
 }
 
 /// Index of a zoo type, 0..NT.
 pub type Tid = u8;
-pub const NT: u8 = 19;
+pub const NT: u8 = 20;
 /// The fixed zoo types (tid 18 was added after 16/17 had been taken by Bvd/Bv; the numbering is
 /// kept stable because replay files store it).
-pub const FIXED_TIDS: [Tid; 17] = [0, 1, 2, 3, 4, 5, 6, 7, 8, 9, 10, 11, 12, 13, 14, 15, 18];
+pub const FIXED_TIDS: [Tid; 18] = [0, 1, 2, 3, 4, 5, 6, 7, 8, 9, 10, 11, 12, 13, 14, 15, 18, 19];
 pub const TID_D: Tid = 16;
 pub const TID_A: Tid = 17;
 
-pub const NAMES: [&str; 19] = [
+pub const NAMES: [&str; 20] = [
     "Bvf<u8,1>", "Bvf<u8,2>", "Bvf<u8,3>", "Bvf<u8,9>", "Bvf<u8,17>", "Bvf<u16,1>", "Bvf<u16,3>",
     "Bvf<u32,1>", "Bvf<u32,3>", "Bvf<u64,1>", "Bvf<u64,2>", "Bvf<u64,3>", "Bvf<u128,1>",
-    "Bvf<u128,2>", "Bvf<usize,1>", "Bvf<usize,2>", "Bvd", "Bv", "Bvf<u32,40>",
+    "Bvf<u128,2>", "Bvf<usize,1>", "Bvf<usize,2>", "Bvd", "Bv", "Bvf<u32,80>", "Bvf<u16,10>",
 ];
 /// Storage word width in bits (Bvd and Bv: 64).
-pub const WORD_BITS: [usize; 19] = [8, 8, 8, 8, 8, 16, 16, 32, 32, 64, 64, 64, 128, 128, 64, 64, 64, 64, 32];
+pub const WORD_BITS: [usize; 20] = [8, 8, 8, 8, 8, 16, 16, 32, 32, 64, 64, 64, 128, 128, 64, 64, 64, 64, 32, 16];
 /// Number of words for fixed types (0 for Bvd / Bv).
-pub const NWORDS: [usize; 19] = [1, 2, 3, 9, 17, 1, 3, 1, 3, 1, 2, 3, 1, 2, 1, 2, 0, 0, 40];
+pub const NWORDS: [usize; 20] = [1, 2, 3, 9, 17, 1, 3, 1, 3, 1, 2, 3, 1, 2, 1, 2, 0, 0, 80, 10];
 /// Inline capacity of `Bv` on this (64-bit) platform.
 pub const BV_INLINE: usize = 128;
 
@@ -105,7 +109,8 @@ macro_rules! z_match {
             $crate::Z::Fszx2($v) => $body,
             $crate::Z::D($v) => $body,
             $crate::Z::A($v) => $body,
-            $crate::Z::F32x40($v) => $body,
+            $crate::Z::F32x80($v) => $body,
+            $crate::Z::F16x10($v) => $body,
         }
     };
 }
@@ -133,7 +138,8 @@ macro_rules! tid_match {
             15 => { type $T = $crate::Fszx2; $body }
             16 => { type $T = $crate::Bvd; $body }
             17 => { type $T = $crate::Bv; $body }
-            18 => { type $T = $crate::F32x40; $body }
+            18 => { type $T = $crate::F32x80; $body }
+            19 => { type $T = $crate::F16x10; $body }
             _ => unreachable!("bad tid"),
         }
     };
@@ -451,7 +457,7 @@ impl_subject_fixed! {
     0, F8x1, F8x1; 1, F8x2, F8x2; 2, F8x3, F8x3; 3, F8x9, F8x9; 4, F8x17, F8x17;
     5, F16x1, F16x1; 6, F16x3, F16x3; 7, F32x1, F32x1; 8, F32x3, F32x3;
     9, F64x1, F64x1; 10, F64x2, F64x2; 11, F64x3, F64x3; 12, F128x1, F128x1; 13, F128x2, F128x2;
-    14, Fszx1, Fszx1; 15, Fszx2, Fszx2; 18, F32x40, F32x40;
+    14, Fszx1, Fszx1; 15, Fszx2, Fszx2; 18, F32x80, F32x80; 19, F16x10, F16x10;
 }
 
 impl Subject for Bvd {
